@@ -12,6 +12,8 @@ package harness
 // attributes expire between two blocks; `sweep` calls Keeper.DeleteExpiredAttributes with a small
 // limit of its own, which exercises the cap logic of the sweep loop (counter, break, key order)
 // that the chain runs with MaxExpiredAttributionCount.
+// GENESIS: `regen <t>` exports the attribute module's genesis in the middle of a history, empties
+// the attribute store and runs InitGenesis with the export at block time t; the history goes on.
 
 import (
 	"crypto/sha256"
@@ -440,6 +442,32 @@ func (e *attrEnv) exec(op string) string {
 		return Guard(func() string {
 			return "ok " + strconv.Itoa(attrApp.AttributeKeeper.DeleteExpiredAttributes(e.ctx, limit))
 		})
+	case "regen":
+		// regen <t>: genesis round trip of the attribute module: ExportGenesis, the three key spaces
+		// of the store (records, lookup counters, expiration queue) emptied, block time t,
+		// InitGenesis with the export
+		if len(ws) != 2 {
+			return "bad-op"
+		}
+		t, _ := strconv.ParseInt(ws[1], 10, 64)
+		return Guard(func() string {
+			gs := attrApp.AttributeKeeper.ExportGenesis(e.ctx)
+			store := e.ctx.KVStore(attrApp.GetKey(attrtypes.StoreKey))
+			for _, p := range [][]byte{attrtypes.AttributeKeyPrefix, attrtypes.AttributeAddrLookupKeyPrefix, attrtypes.AttributeExpirationKeyPrefix} {
+				var keys [][]byte
+				it := storetypes.KVStorePrefixIterator(store, p)
+				for ; it.Valid(); it.Next() {
+					keys = append(keys, append([]byte{}, it.Key()...))
+				}
+				it.Close()
+				for _, k := range keys {
+					store.Delete(k)
+				}
+			}
+			e.ctx = e.ctx.WithBlockTime(time.Unix(t, 0).UTC())
+			attrApp.AttributeKeeper.InitGenesis(e.ctx, gs)
+			return "ok " + strconv.Itoa(len(gs.Attributes))
+		})
 	case "begin":
 		t, _ := strconv.ParseInt(ws[1], 10, 64)
 		e.ctx = e.ctx.WithBlockTime(time.Unix(t, 0).UTC())
@@ -594,10 +622,12 @@ func (e *attrEnv) emit(out *Out, op string) string {
 			if ws[2] != "0" && res == "ok "+ws[2] {
 				out.Count("sweep:limit_reached")
 			}
+		} else if ws[0] == "regen" && strings.HasPrefix(res, "ok ") {
+			out.Count("res:regen:ok")
 		} else {
 			out.Count("res:" + ws[0] + ":" + res)
 		}
-		if res == "ok" {
+		if res == "ok" || (ws[0] == "regen" && strings.HasPrefix(res, "ok ")) {
 			out.Count("accepted")
 		} else {
 			out.Count("rejected")
@@ -770,7 +800,20 @@ func driveAttr(t *testing.T, rng *RNG, n int, out *Out) {
 				}
 				plan = plan[1:]
 			}
+			// genesis round trip of the attribute module in the middle of a history (not in volume
+			// histories: the model's import is quadratic): at the current block time, or later so that
+			// stored attributes are expired when they are imported
+			regen := forced == "" && !volume && rng.Chance(4)
 			switch {
+			case regen:
+				t := e.now() + int64(Pick(rng, []int{0, 0, 0, 0, 1, 3, 8, 30}))
+				op = fmt.Sprintf("regen %d", t)
+				for _, r := range recs {
+					if x, err := strconv.ParseInt(r.exp, 10, 64); err == nil && x < t {
+						out.Count("regen:imports_expired_record")
+						break
+					}
+				}
 			case k < 30:
 				if len(gone) > 0 && (forced == "readd" || rng.Chance(35)) {
 					r := Pick(rng, gone)
